@@ -76,7 +76,7 @@ func scenC07(e *Env) func() {
 		case "head":
 			r.Size = Pick(e, p.ReadBuf-200, p.ReadBuf, p.ReadBuf+1, p.ReadBuf+300, 3*p.ReadBuf)
 		case "bomb":
-			r.Codec = Pick(e, "gzip", "deflate", "br", "zstd")
+			r.Codec = Pick(e, "gzip", "deflate", "br", "zstd", "gzip2")
 			if r.Size > 1<<20 {
 				r.Size = 1 << 20
 			}
@@ -144,6 +144,19 @@ func compressWith(codec string, data []byte) []byte {
 	case "gzip":
 		w := gzip.NewWriter(&b)
 		w.Write(data)
+		w.Close()
+	case "gzip2":
+		// a gzip stream of two members (RFC 1952 allows it): the bulk, then one byte;
+		// the trailer of the stream only describes the last member
+		n := len(data) - 1
+		if n < 0 {
+			n = 0
+		}
+		w := gzip.NewWriter(&b)
+		w.Write(data[:n])
+		w.Close()
+		w = gzip.NewWriter(&b)
+		w.Write(data[n:])
 		w.Close()
 	case "deflate":
 		w := zlib.NewWriter(&b)
@@ -243,6 +256,9 @@ func c07Server(e *Env, p *c07Plan) {
 			// highly compressible payload of r.Size bytes; the helper limit is the plan's limit
 			raw = compressWith(r.Codec, bytes.Repeat([]byte("A"), r.Size))
 			ce := r.Codec
+			if ce == "gzip2" {
+				ce = "gzip"
+			}
 			hdr += "Content-Encoding: " + ce + "\r\n"
 			helperLimit = eff
 			hdr += fmt.Sprintf("X-Helper-Limit: %d\r\n", helperLimit)
